@@ -2,6 +2,7 @@ package props
 
 import (
 	"fmt"
+	"math/big"
 	"reflect"
 	"strings"
 	"sync"
@@ -1017,6 +1018,57 @@ func c03apiConstants(c *fw.Check) {
 	for i, v := range []int64{0, 1, -1, 255, -128, 4096, 1 << 40, -(1 << 62)} {
 		m.NewGlobalDef(fmt.Sprintf("i%d", i), constant.NewInt(types.I64, v))
 		fmt.Fprintf(&ref, "@i%d = global i64 %d\n", i, v)
+	}
+	// integers of every width class, also beyond 64 bits (NewIntFromString and struct literals are
+	// the only constructors for those): +-2^k, 2^k+-1 around the 63/64/127/128-bit boundaries,
+	// all-ones and alternating patterns; the reference text is the plain decimal.
+	{
+		wi := 0
+		for _, w := range []uint64{8, 16, 32, 64, 65, 96, 128, 129, 256} {
+			seen := map[string]bool{}
+			add := func(v *big.Int, how int) {
+				lo := new(big.Int).Neg(new(big.Int).Lsh(big.NewInt(1), uint(w-1)))
+				hi := new(big.Int).Sub(new(big.Int).Lsh(big.NewInt(1), uint(w)), big.NewInt(1))
+				if v.Cmp(lo) < 0 || v.Cmp(hi) > 0 || seen[v.String()] {
+					return
+				}
+				seen[v.String()] = true
+				typ := types.NewInt(w)
+				var k constant.Constant
+				if how == 0 {
+					kk, err := constant.NewIntFromString(typ, v.String())
+					if err != nil {
+						c.Violation("api-constants/NewIntFromString-fails", c03prog{What: fmt.Sprintf("i%d %s: %v", w, v, err)})
+						return
+					}
+					k = kk
+				} else {
+					k = &constant.Int{Typ: typ, X: new(big.Int).Set(v)}
+				}
+				m.NewGlobalDef(fmt.Sprintf("w%d", wi), k)
+				fmt.Fprintf(&ref, "@w%d = global i%d %s\n", wi, w, v.String())
+				wi++
+			}
+			for _, k := range []uint{0, 1, 7, 12, 31, 32, 62, 63, 64, 65, 66, 95, 96, 126, 127, 128, 129, 255} {
+				p2 := new(big.Int).Lsh(big.NewInt(1), k)
+				for _, d := range []int64{-1, 0, 1} {
+					v := new(big.Int).Add(p2, big.NewInt(d))
+					add(v, 0)
+					add(new(big.Int).Neg(v), 0)
+				}
+			}
+			alt := new(big.Int)
+			for i := uint(0); i < uint(w); i += 2 {
+				alt.SetBit(alt, int(i), 1)
+			}
+			add(alt, 1)
+			add(new(big.Int).Lsh(alt, 1), 1)
+			if w >= 16 {
+				add(new(big.Int).Lsh(big.NewInt(0xFFF), uint(w)-12), 1)
+			}
+			add(new(big.Int).Lsh(big.NewInt(1), uint(w)-5), 1)
+		}
+		n += wi
 	}
 	m.NewGlobalDef("bt", constant.NewBool(true))
 	m.NewGlobalDef("bf", constant.NewBool(false))
